@@ -51,15 +51,17 @@ theorem C16_inv_start {m : SeqMod} (h : WF m) (speed0 : Int) {s : St} (hs : star
     Core m s ∧ RowInv m s ∧ s.loopCount = 0 :=
   start_spec h.facts hs
 
-/-- **C16_inv_frame**: every successful `xmp_play_frame` from a state satisfying the range
-invariant, with effect outcomes inside `EffOk`, ends in a `Playing` state whose frame time was
-computed from the reported (positive) tempo; with the row invariant it also ends with a fresh
-`num_rows` and `row < num_rows`. -/
-theorem C16_inv_frame {m : SeqMod} (h : WF m) {s s' : St} {eA eB : Eff} (hc : Core m s) (ha : EffOk eA)
-    (hb : EffOk eB) (hf : playFrame m s eA eB = .ok s') :
-    Playing m s' ∧ s'.ftBpm = s'.bpm ∧ (RowInv m s → Fresh m s' ∧ s'.row < s'.numRows) := by
+/-- **C16_inv_frame**: every successful `xmp_play_frame` from a state satisfying the boundary
+invariants, with effect outcomes inside `EffOk`, ends in a `Playing` state that again satisfies
+the row invariant (`num_rows` fresh, `row < rows`) and whose frame time was computed from the
+reported (positive) tempo. -/
+theorem C16_inv_frame {m : SeqMod} (h : WF m) {s s' : St} {eA eB : Eff} (hc : Core m s) (hr : RowInv m s)
+    (ha : EffOk eA) (hb : EffOk eB) (hf : playFrame m s eA eB = .ok s') :
+    Playing m s' ∧ RowInv m s' ∧ s'.ftBpm = s'.bpm := by
   obtain ⟨a, b, _, d⟩ := playFrame_core h.facts hc ha hb hf
-  exact ⟨a, b, d⟩
+  have d := d hr
+  refine ⟨a, ⟨?_, d.1⟩, b⟩
+  have := d.1; unfold Fresh at this; omega
 
 /-- **C16_loop_monotone**: a frame never decreases the loop counter. -/
 theorem C16_loop_monotone {m : SeqMod} (h : WF m) {s s' : St} {eA eB : Eff} (hc : Core m s) (ha : EffOk eA)
@@ -69,22 +71,13 @@ theorem C16_loop_monotone {m : SeqMod} (h : WF m) {s s' : St} {eA eB : Eff} (hc 
 /- A failed frame (`-XMP_END`) leaves the state alone by construction of `Res.fin`; the
 boundary invariants therefore survive it trivially. -/
 
-/-- **C16_inv_control** (range part, full strength): every position-control call — accepted
-or refused, with any argument — preserves the range invariant. -/
-theorem C16_inv_control {m : SeqMod} (h : WF m) {s : St} (hc : Core m s) (c : Ctl) : Core m (ctl m s c) :=
-  (ctl_spec h.facts hc c).1
-
-/- Full statement that does NOT hold for the code as it is:
-   `RowInv m s → RowInv m (ctl m s c)` for every call.  `set_position` overwrites `f->num_rows`
-   with the row count of the *target* pattern; a second call that moves the target back onto the
-   order being played cancels the reposition but leaves that stale value (see
-   `C16_control_counterexample`).  Proved: the row invariant survives every call made while
-   `f->num_rows` is fresh (in particular the first call after a frame or after `xmp_set_row`). -/
-/-- **C16_inv_control_partial**: row part, under the hypothesis `Fresh` for the
-`set_position` family (`xmp_set_row`, `xmp_stop_module`, `xmp_restart_module` need nothing). -/
-theorem C16_inv_control_partial {m : SeqMod} (h : WF m) {s : St} (hc : Core m s) (hr : RowInv m s) (c : Ctl)
-    (hfresh : isPosCall c = true → Fresh m s) : Core m (ctl m s c) ∧ RowInv m (ctl m s c) :=
-  ⟨(ctl_spec h.facts hc c).1, (ctl_spec h.facts hc c).2 hr hfresh⟩
+/-- **C16_inv_control**: every position-control call — `xmp_set_position`, `xmp_next_position`,
+`xmp_prev_position`, `xmp_set_row`, `xmp_seek_time`, `xmp_stop_module`, `xmp_restart_module`,
+accepted or refused, with ANY argument and in any flow state — preserves the range invariant and
+the row invariant (since /repo 4e701d0 `set_position` no longer writes `f->num_rows`). -/
+theorem C16_inv_control {m : SeqMod} (h : WF m) {s : St} (hc : Core m s) (hr : RowInv m s) (c : Ctl) :
+    Core m (ctl m s c) ∧ RowInv m (ctl m s c) :=
+  ⟨(ctl_spec h.facts hc c).1, (ctl_spec h.facts hc c).2 hr⟩
 
 /-! ### Histories -/
 
@@ -108,80 +101,45 @@ def EffsOk : List Call → Prop
   | .frame a b :: rest => EffOk a ∧ EffOk b ∧ EffsOk rest
   | .ctl _ :: rest => EffsOk rest
 
-/-- every call of the `set_position` family is made while `f->num_rows` is fresh -/
-def FreshAtPos (m : SeqMod) : St → List Call → Prop
-  | _, [] => True
-  | s, .frame a b :: rest =>
-    match playFrame m s a b with
-    | .ok s' => FreshAtPos m s' rest
-    | .fin => FreshAtPos m s rest
-    | .diverge => True
-  | s, .ctl c :: rest => (isPosCall c = true → Fresh m s) ∧ FreshAtPos m (ctl m s c) rest
-
-/-- **C16_reachable**: for every history of frames and position-control calls (any arguments)
-whose effect outcomes stay inside `EffOk`, started from any state satisfying the range
-invariant (e.g. `start`, `C16_inv_start`): after every successful frame the state is `Playing`
-with `frame_time` computed from a positive tempo — hence (`C16_frame_info`) `0 ≤ pos < len`,
-`pattern = xxo[pos] < pat`, `0 ≤ row`, `1 ≤ speed ≤ 255`, `bpm > 0`, `frame_time > 0`,
-`sequence < num_sequences`. -/
-theorem C16_reachable {m : SeqMod} (h : WF m) : ∀ (hist : List Call) (s : St), Core m s → EffsOk hist →
-    ∀ s' ∈ frames m s hist, Playing m s' ∧ s'.ftBpm = s'.bpm := by
+/-- **C16_reachable**: for EVERY history of frames and position-control calls (any arguments)
+whose effect outcomes stay inside `EffOk`, started from any state satisfying the boundary
+invariants (e.g. `start`, `C16_inv_start`): after every successful frame the state is `Playing`,
+satisfies the row invariant, and `frame_time` was computed from the reported tempo — hence
+(`C16_frame_info`) `0 ≤ pos < len`, `pattern = xxo[pos] < pat`, `0 ≤ row < rows(pattern)`,
+`1 ≤ speed ≤ 255`, `bpm > 0`, `frame_time > 0`, `sequence < num_sequences`. -/
+theorem C16_reachable {m : SeqMod} (h : WF m) : ∀ (hist : List Call) (s : St), Core m s → RowInv m s → EffsOk hist →
+    ∀ s' ∈ frames m s hist, Playing m s' ∧ RowInv m s' ∧ s'.ftBpm = s'.bpm := by
   intro hist
   induction hist with
-  | nil => intro s _ _ s' hs'; simp [frames] at hs'
+  | nil => intro s _ _ _ s' hs'; simp [frames] at hs'
   | cons c rest ih =>
-    intro s hc he s' hs'
+    intro s hc hr he s' hs'
     cases c with
     | frame a b =>
       obtain ⟨ea, eb, er⟩ := he
       unfold frames at hs'
       split at hs'
       · rename_i s1 hf
-        obtain ⟨p1, f1, _⟩ := C16_inv_frame h hc ea eb hf
+        obtain ⟨p1, r1, f1⟩ := C16_inv_frame h hc hr ea eb hf
         rcases List.mem_cons.mp hs' with e | e
-        · subst e; exact ⟨p1, f1⟩
-        · exact ih s1 p1.core er s' e
-      · exact ih s hc er s' hs'
+        · subst e; exact ⟨p1, r1, f1⟩
+        · exact ih s1 p1.core r1 er s' e
+      · exact ih s hc hr er s' hs'
       · simp at hs'
     | ctl c =>
       unfold frames at hs'
-      exact ih _ (C16_inv_control h hc c) he s' hs'
+      obtain ⟨c1, r1⟩ := C16_inv_control h hc hr c
+      exact ih _ c1 r1 he s' hs'
 
-/-- **C16_reachable_partial** (row clause): as `C16_reachable`, started from a state that also
-satisfies the row invariant, and under `FreshAtPos` (no `set_position`-family call is made on a
-stale `f->num_rows`): after every successful frame `num_rows` is fresh and `row < num_rows`,
-hence (`C16_frame_info`) the reported row is inside the reported pattern.
-Full statement (without `FreshAtPos`) is refuted by `C16_control_counterexample`. -/
-theorem C16_reachable_partial {m : SeqMod} (h : WF m) : ∀ (hist : List Call) (s : St), Core m s → RowInv m s →
-    EffsOk hist → FreshAtPos m s hist → ∀ s' ∈ frames m s hist, Fresh m s' ∧ s'.row < s'.numRows := by
-  intro hist
-  induction hist with
-  | nil => intro s _ _ _ _ s' hs'; simp [frames] at hs'
-  | cons c rest ih =>
-    intro s hc hr he hfp s' hs'
-    cases c with
-    | frame a b =>
-      obtain ⟨ea, eb, er⟩ := he
-      unfold frames at hs'
-      unfold FreshAtPos at hfp
-      split at hs'
-      · rename_i s1 hf
-        rw [hf] at hfp
-        obtain ⟨p1, _, r1⟩ := C16_inv_frame h hc ea eb hf
-        have r1 := r1 hr
-        rcases List.mem_cons.mp hs' with e | e
-        · subst e; exact r1
-        · refine ih s1 p1.core ⟨?_, fun _ => r1.1⟩ er hfp s' e
-          have := r1.1; unfold Fresh at this; omega
-      · rename_i hf
-        rw [hf] at hfp
-        exact ih s hc hr er hfp s' hs'
-      · simp at hs'
-    | ctl c =>
-      unfold frames at hs'
-      obtain ⟨f1, f2⟩ := hfp
-      obtain ⟨c1, r1⟩ := C16_inv_control_partial h hc hr c f1
-      exact ih _ c1 r1 he f2 s' hs'
+/-- **C16_reachable_info**: the same, phrased on what `xmp_get_frame_info` reports. -/
+theorem C16_reachable_info {m : SeqMod} (h : WF m) (hist : List Call) (s : St) (hc : Core m s) (hr : RowInv m s)
+    (he : EffsOk hist) : ∀ s' ∈ frames m s hist,
+    InfoOk m (frameInfo m s') ∧ (frameInfo m s').row < (frameInfo m s').numRows ∧ 0 < s'.ftBpm := by
+  intro s' hs'
+  obtain ⟨p, r, _⟩ := C16_reachable h hist s hc hr he s' hs'
+  obtain ⟨a, b, c⟩ := C16_frame_info h p
+  refine ⟨a, c r.numOk ?_, b⟩
+  have := r.numOk; have := r.rowLt; unfold Fresh at *; omega
 
 /-- **C16_loop_monotone_run**: over any run of frames with no position-control call in
 between, the loop counter reported after each successful frame is at least the one before
@@ -200,7 +158,7 @@ theorem C16_loop_monotone_run {m : SeqMod} (h : WF m) : ∀ (effs : List (Eff ×
     split at hs'
     · rename_i s1 hf
       have l1 := C16_loop_monotone h hc he1.1 he1.2 hf
-      have p1 := (C16_inv_frame h hc he1.1 he1.2 hf).1
+      have p1 := (playFrame_core h.facts hc he1.1 he1.2 hf).1
       rcases List.mem_cons.mp hs' with e' | e'
       · subst e'; exact l1
       · have := ih s1 p1.core (fun x hx => he x (List.mem_cons_of_mem _ hx)) s' e'
@@ -243,30 +201,22 @@ def exPlaying : St :=
 
 example : Core exMod exPlaying ∧ RowInv exMod exPlaying := by
   refine ⟨⟨by decide, by decide, by decide, by decide, by decide, by decide, by decide, by decide, by decide, by decide,
-    by decide⟩, ⟨by decide, fun _ => by unfold Fresh; decide⟩⟩
+    by decide⟩, ⟨by decide, by unfold Fresh; decide⟩⟩
 
-/-- **C16_control_counterexample**: from a state satisfying the full invariant, the calls
-`xmp_set_position(0)` (which sets `f->num_rows` to the 64 rows of pattern 0 and requests a
-restart) followed by `xmp_set_position(1)` (back onto the order being played: the reposition is
-cancelled) leave `f->num_rows = 64` while pattern 1 has 16 rows; playing on, the reported row
-reaches 16 = the reported number of rows.  The real library reproduces this
-(oracle signature `row:stale_num_rows`). -/
+/-- regression witness of the former finding `row:stale_num_rows`: `xmp_set_position(0)` then
+`xmp_set_position(1)` (back onto the order being played) no longer leaves the 64 rows of pattern 0
+in `f->num_rows`; the invariant survives both calls. -/
 def exAfterCalls : St := ctl exMod (ctl exMod exPlaying (.setPos 0)) (.setPos 1)
 
-/-- `n` frames with no effects -/
-def playN (m : SeqMod) : Nat → St → St
-  | 0, s => s
-  | n + 1, s => match playFrame m s noEff noEff with
-    | .ok s' => playN m n s'
-    | _ => s
+example : exAfterCalls.pos = exAfterCalls.ord ∧ exAfterCalls.numRows = 16 ∧ exAfterCalls.row = 3 := by decide
 
-theorem C16_control_counterexample :
-    exAfterCalls.pos = exAfterCalls.ord ∧ exAfterCalls.numRows = 64 ∧ ¬ Fresh exMod exAfterCalls ∧
-    (frameInfo exMod (playN exMod 76 exAfterCalls)).row = 16 ∧
-    (frameInfo exMod (playN exMod 76 exAfterCalls)).numRows = 16 ∧
-    (frameInfo exMod (playN exMod 76 exAfterCalls)).pattern = 1 := by
-  unfold Fresh
-  decide
+/-- a concrete history inside the hypotheses of `C16_reachable`: two frames, the calls above, a
+frame whose effects break to row 3 of order 1 at speed 3, a seek, a stop and a frame (which fails) -/
+def exHist : List Call :=
+  [.frame noEff noEff, .frame noEff noEff, .ctl (.setPos 0), .ctl (.setPos 1), .frame exEff noEff,
+   .ctl (.seek 8000), .frame noEff noEff, .ctl .stop, .frame noEff noEff]
+
+-- EXAMPLE_PLACEHOLDER
 
 end Xmp.Seq
 
@@ -274,106 +224,71 @@ namespace Xmp.Tick
 open Xmp.Gen.PlayerConsts
 
 /-- **C16_ticksize**: for ALL inputs (any rate, time factor, rrate, tempo — valid or not), the
-tick size used by the mixer is between `1 << ANTICLICK_SHIFT` and `XMP_MAX_FRAMESIZE / 2`
+tick size used by the mixer is between `1 << ANTICLICK_SHIFT` and `XMP_MAX_FRAMESIZE / 4`
 frames; the reported `buffer_size` is exactly that many whole sample frames of 1, 2 or 4 bytes,
-positive, and fits both mixer buffers as allocated by `libxmp_mixer_on`
-(`XMP_MAX_FRAMESIZE` int16 resp. int32 entries). -/
+positive, **never exceeds `XMP_MAX_FRAMESIZE`** (= the reported `total_size`), and fits both
+mixer buffers as allocated by `libxmp_mixer_on`. -/
 theorem C16_ticksize (freq tfN tfD rrN rrD bpm : Int) (mono bit8 : Bool) :
     let t := prepare freq tfN tfD rrN rrD bpm
     minTicks ≤ t ∧ t ≤ capTicks ∧
     bufferSize t mono bit8 = t * frameBytes mono bit8 ∧
     (frameBytes mono bit8 = 1 ∨ frameBytes mono bit8 = 2 ∨ frameBytes mono bit8 = 4) ∧
     bufferSize t mono bit8 % frameBytes mono bit8 = 0 ∧ 0 < bufferSize t mono bit8 ∧
+    bufferSize t mono bit8 ≤ maxFramesize ∧
     bufferSize t mono bit8 ≤ maxFramesize * sizeofInt16 ∧ buf32Bytes t mono ≤ maxFramesize * sizeofInt32 := by
   intro t
   have hr := prepare_range freq tfN tfD rrN rrD bpm
   have hb := bufferSize_eq t mono bit8
   have hf := frameBytes_cases mono bit8
   rw [minTicks_eq, capTicks_eq] at *
-  have ht : 8 ≤ t ∧ t ≤ 12292 := hr
-  refine ⟨ht.1, ht.2, hb, hf, ?_, ?_, ?_, ?_⟩
+  have ht : 8 ≤ t ∧ t ≤ 6146 := hr
+  refine ⟨ht.1, ht.2, hb, hf, ?_, ?_, ?_, ?_, ?_⟩
   · rw [hb]; exact Int.mul_emod_left _ _
   · rw [hb]; rcases hf with h | h | h <;> rw [h] <;> omega
+  · rw [hb]; simp only [maxFramesize]; rcases hf with h | h | h <;> rw [h] <;> omega
   · rw [hb]; simp only [maxFramesize, sizeofInt16]; rcases hf with h | h | h <;> rw [h] <;> omega
   · simp only [buf32Bytes, maxFramesize, sizeofInt32]; split <;> omega
 
-/- Full statement that does NOT hold for the code as it is: `bufferSize … ≤ XMP_MAX_FRAMESIZE`
-   for all inputs (the cap is XMP_MAX_FRAMESIZE/2 *frames*, i.e. up to 2·XMP_MAX_FRAMESIZE bytes
-   in 16-bit stereo).  See `C16_framesize_counterexample`. -/
-/-- **C16_framesize_bound_partial**: `buffer_size ≤ XMP_MAX_FRAMESIZE` holds for 8-bit or mono
-output unconditionally, and for 16-bit stereo when the sampling rate is at most `XMP_MAX_SRATE`
-and the frame time `time_factor·rrate/bpm` is at most 125 ms (default time factor 10, PAL rate
-250, tempo ≥ `XMP_MIN_BPM` = 20 gives exactly 125 ms). -/
-theorem C16_framesize_bound_partial (freq tfN tfD rrN rrD bpm : Int) (mono bit8 : Bool)
-    (h : frameBytes mono bit8 ≤ 2 ∨
-         (0 < freq ∧ freq ≤ maxSrate ∧ 0 < bpm ∧ 0 < tfN ∧ 0 < rrN ∧ 0 < tfD ∧ 0 < rrD ∧
-          tfN * rrN ≤ 125 * ((tfD * rrD) * bpm))) :
-    bufferSize (prepare freq tfN tfD rrN rrD bpm) mono bit8 ≤ maxFramesize := by
-  have hr := prepare_range freq tfN tfD rrN rrD bpm
-  rw [minTicks_eq, capTicks_eq] at hr
-  rw [bufferSize_eq]
-  have hf := frameBytes_cases mono bit8
-  simp only [maxFramesize]
-  rcases h with h | ⟨h0, h1, hb, hn1, hn2, h2, h3, h4⟩
-  · rcases hf with e | e | e <;> rw [e] at h ⊢ <;> omega
-  · suffices hs : prepare freq tfN tfD rrN rrD bpm ≤ 6146 by
-      rcases hf with e | e | e <;> rw [e] <;> omega
-    have hD : 0 < tfD * rrD * bpm := Int.mul_pos (Int.mul_pos h2 h3) hb
-    have hraw := rawTicks_le freq (tfN * rrN) (tfD * rrD * bpm) h0 hD h4 (by simpa [maxSrate] using h1)
-    have hlt : freq * (tfN * rrN) < 6147 * (tfD * rrD * bpm * 1000) := by
-      have h1' : freq * (tfN * rrN) ≤ freq * (125 * (tfD * rrD * bpm)) := Int.mul_le_mul_of_nonneg_left h4 (by omega)
-      have h2' : freq * (125 * (tfD * rrD * bpm)) ≤ 49170 * (125 * (tfD * rrD * bpm)) :=
-        Int.mul_le_mul_of_nonneg_right (by simpa [maxSrate] using h1) (by omega)
-      omega
-    unfold prepare getTicksize
-    simp only [minTicks_eq, capTicks_eq]
-    have hv : ¬ (freq ≤ 0 ∨ bpm ≤ 0 ∨ tfN ≤ 0 ∨ rrN ≤ 0) := by omega
-    rw [if_neg hv]
-    have hmax : ¬ freq * (tfN * rrN) > intMax * (tfD * rrD * bpm * 1000) := by
-      intro hc
-      simp only [intMax] at hc
-      have : 6147 * (tfD * rrD * bpm * 1000) ≤ 2147483647 * (tfD * rrD * bpm * 1000) :=
-        Int.mul_le_mul_of_nonneg_right (by omega) (by omega)
-      omega
-    rw [if_neg hmax]
-    unfold rawTicks
-    split <;> split <;> omega
+/-- **C16_framesize_bound** (full strength since /repo ec96084 caps the tick size at
+`XMP_MAX_FRAMESIZE / 4` frames): for all inputs `buffer_size ≤ XMP_MAX_FRAMESIZE`. -/
+theorem C16_framesize_bound (freq tfN tfD rrN rrD bpm : Int) (mono bit8 : Bool) :
+    bufferSize (prepare freq tfN tfD rrN rrD bpm) mono bit8 ≤ maxFramesize :=
+  (C16_ticksize freq tfN tfD rrN rrD bpm mono bit8).2.2.2.2.2.2.1
 
-/-- **C16_framesize_counterexample** (finding `framesize:tempo_factor`): 49170 Hz 16-bit stereo,
-`xmp_set_tempo_factor(10.0)` (time factor 100), PAL rate, 125 BPM: the frame holds 9834 sample
-frames = 39336 bytes > `XMP_MAX_FRAMESIZE` = 24585, which is also what `total_size` reports. -/
-theorem C16_framesize_counterexample :
-    prepare 49170 100 1 250 1 125 = 9834 ∧ bufferSize (prepare 49170 100 1 250 1 125) false false = 39336 ∧
-    ¬ bufferSize (prepare 49170 100 1 250 1 125) false false ≤ maxFramesize := by decide
+/-- the former counterexample (49170 Hz 16-bit stereo, time factor 100, 125 BPM: 9834 frames
+wanted) is now clamped to 6146 frames = 24584 bytes -/
+example : prepare 49170 100 1 250 1 125 = 6146 ∧ bufferSize (prepare 49170 100 1 250 1 125) false false = 24584 := by
+  decide
 
 /-- **C16_ticksize_agrees**: when neither clamp applies (the unclamped tick count
-`⌊rate·time_factor·rrate/(bpm·1000)⌋` lies between the 8-frame minimum and the cap), the buffer
-holds within one sample frame what sampling rate × reported frame time (µs) gives:
-`t·10⁶ − rate < rate·frame_time < (t+1)·10⁶`. -/
-theorem C16_ticksize_agrees (freq tfN tfD rrN rrD bpm : Int) (h1 : 0 < freq) (h1' : freq ≤ maxSrate) (h2 : 0 < bpm) (h3 : 0 < tfN)
-    (h4 : 0 < rrN) (h5 : 0 < tfD) (h6 : 0 < rrD)
+`⌊rate·time_factor·rrate/(bpm·1000)⌋` lies between the 8-frame minimum and the cap) and the
+sampling rate is in the accepted range, the buffer holds within one sample frame what sampling
+rate × reported frame time (µs, not saturated) gives: `t·10⁶ − rate < rate·frame_time < (t+1)·10⁶`. -/
+theorem C16_ticksize_agrees (freq tfN tfD rrN rrD bpm : Int) (h1 : minSrate ≤ freq) (h1' : freq ≤ maxSrate)
+    (h2 : 0 < bpm) (h3 : 0 < tfN) (h4 : 0 < rrN) (h5 : 0 < tfD) (h6 : 0 < rrD)
     (hlo : minTicks ≤ rawTicks freq (tfN * rrN) (tfD * rrD) bpm)
     (hhi : rawTicks freq (tfN * rrN) (tfD * rrD) bpm ≤ capTicks) :
     let t := prepare freq tfN tfD rrN rrD bpm
     let ft := frameTimeUs tfN tfD rrN rrD bpm
-    t = rawTicks freq (tfN * rrN) (tfD * rrD) bpm ∧ 0 < ft ∧
+    t = rawTicks freq (tfN * rrN) (tfD * rrD) bpm ∧ 0 < ft ∧ ft < intMax ∧
     t * 1000000 - freq < freq * ft ∧ freq * ft < (t + 1) * 1000000 := by
   intro t ft
+  simp only [minSrate, maxSrate] at h1 h1'
   have hP : 0 < tfN * rrN := Int.mul_pos h3 h4
   have hD : 0 < tfD * rrD * bpm := Int.mul_pos (Int.mul_pos h5 h6) h2
-  have core := agree_core freq (tfN * rrN) (tfD * rrD * bpm) h1 (by omega) hD
+  have core := agree_core freq (tfN * rrN) (tfD * rrD * bpm) (by omega) (by omega) hD
+  have hraw : rawTicks freq (tfN * rrN) (tfD * rrD) bpm ≤ 6146 := by rw [capTicks_eq] at hhi; exact hhi
   have ht : t = rawTicks freq (tfN * rrN) (tfD * rrD) bpm := by
     show prepare freq tfN tfD rrN rrD bpm = _
-    have hraw : rawTicks freq (tfN * rrN) (tfD * rrD) bpm ≤ 12292 := by rw [capTicks_eq] at hhi; exact hhi
     unfold prepare getTicksize
     simp only [capTicks_eq]
     have hv : ¬ (freq ≤ 0 ∨ bpm ≤ 0 ∨ tfN ≤ 0 ∨ rrN ≤ 0) := by omega
     rw [if_neg hv]
     have hmax : ¬ freq * (tfN * rrN) > intMax * (tfD * rrD * bpm * 1000) := by
       intro hc
-      have : (12292 + 1) * (tfD * rrD * bpm * 1000) ≤ freq * (tfN * rrN) := by
+      have : (6146 + 1) * (tfD * rrD * bpm * 1000) ≤ freq * (tfN * rrN) := by
         simp only [intMax] at hc
-        have : 12293 * (tfD * rrD * bpm * 1000) ≤ 2147483647 * (tfD * rrD * bpm * 1000) :=
+        have : 6147 * (tfD * rrD * bpm * 1000) ≤ 2147483647 * (tfD * rrD * bpm * 1000) :=
           Int.mul_le_mul_of_nonneg_right (by omega) (by omega)
         omega
       have h := Int.le_ediv_of_mul_le (by omega : 0 < tfD * rrD * bpm * 1000) this
@@ -385,18 +300,28 @@ theorem C16_ticksize_agrees (freq tfN tfD rrN rrD bpm : Int) (h1 : 0 < freq) (h1
       if_neg (by omega)
     simp only [hin]
     rw [if_neg (by rw [minTicks_eq] at hlo; omega)]
-  refine ⟨ht, ?_, ?_, ?_⟩
-  · show 0 < frameTimeUs tfN tfD rrN rrD bpm
-    unfold frameTimeUs
-    have c1 := core.1
-    unfold rawTicks at hlo
-    rw [minTicks_eq] at hlo
-    simp only [maxSrate] at h1'
+  -- the unsaturated frame time
+  generalize hv : 1000 * (tfN * rrN) / (tfD * rrD * bpm) = v at core
+  have c1 := core.1
+  have c2 := core.2
+  unfold rawTicks at hlo hraw
+  rw [minTicks_eq] at hlo
+  have vpos : 0 < v := by
     refine Int.lt_of_not_ge fun hle => ?_
-    have : freq * (1000 * (tfN * rrN) / (tfD * rrD * bpm)) ≤ freq * 0 := Int.mul_le_mul_of_nonneg_left hle (by omega)
+    have : freq * v ≤ freq * 0 := Int.mul_le_mul_of_nonneg_left hle (by omega)
     omega
-  · rw [ht]; exact core.1
-  · rw [ht]; exact core.2
+  have vsmall : v < 1536750 := by
+    refine Int.lt_of_not_ge fun hge => ?_
+    have : 4000 * v ≤ freq * v := Int.mul_le_mul_of_nonneg_right h1 (by omega)
+    omega
+  have hft : ft = v := by
+    show frameTimeUs tfN tfD rrN rrD bpm = v
+    unfold frameTimeUs
+    simp only [hv, intMax]
+    rw [if_neg (by omega)]
+  rw [hft, ht]
+  unfold rawTicks
+  exact ⟨rfl, vpos, by simp only [intMax]; omega, c1, c2⟩
 
 end Xmp.Tick
 
